@@ -159,6 +159,19 @@ def run_kl(ctx):
             ctx.evaluations += 1
             if core.gt(np.abs(g - wantg).max(), TOL):
                 ctx.violation('C04:knill_laflamme_inner_product:backward', 'hand-written backward differs from the formal derivative of the sesquilinear form', dict(data, expected=obs['grad'], got=[[[z.real, z.imag] for z in row] for row in g]))
+            # the loss of the variational code search built on the inner product (L2): exact value and exact gradient
+            qt2 = torch.tensor(q, dtype=torch.complex128, requires_grad=True)
+            l2 = numqi.qec.knill_laflamme_loss(numqi.qec.knill_laflamme_inner_product(qt2, ops), 'L2')
+            wl = obs['lossK2'] / K ** 2
+            if core.gt(abs(float(l2.detach()) - wl), 1e-9 * max(1, wl)) or core.gt(abs(float(numqi.qec.knill_laflamme_loss(ip, 'L2')) - wl), 1e-9 * max(1, wl)):
+                ctx.violation('C04:knill_laflamme_loss:forward', 'L2 loss differs from the exact value %s/%d' % (obs['lossK2'], K ** 2), data)
+            else:
+                l2.backward()
+                g2 = qt2.grad.detach().numpy()
+                wg2 = np.array([[complex(a[0], a[1]) for a in row] for row in obs['gradLK']]) / K
+                ctx.evaluations += 1
+                if core.gt(np.abs(g2 - wg2).max(), 1e-9 * max(1, np.abs(wg2).max())):
+                    ctx.violation('C04:knill_laflamme_loss:backward', 'gradient of the L2 Knill-Laflamme loss differs from the exact derivative of the quartic form', data)
         except Exception as ex:
             ctx.violation('C04:exception:knill_laflamme_inner_product', type(ex).__name__ + ': ' + str(ex)[:200], data)
         ctx.traces += 1
@@ -207,7 +220,7 @@ def run(ctx):
     ctx.assumptions = ['TLC/SANY correct', 'tolerance 1e-9 (float64)', 'angles on the pi/2 grid (phases pi/4): index, ordering, accumulation and conjugation errors are angle independent']
     ctx.tolerances = {'float64': TOL}
     ctx.not_covered = ['Pade matrix logarithm backward (transcendental - no exact model; its building block, the repeated PSD square root, IS covered)', 'PSD square root at singular matrices (not differentiable there)',
-                       'losses of the variational models built on these operations', 'an error in a trigonometric derivative formula that vanishes on the angle grid']
+                       'losses of the variational models other than the Knill-Laflamme L2 loss (exact quartic form in MC_KL)', 'an error in a trigonometric derivative formula that vanishes on the angle grid']
     for cfg, num in [('3', 50 if quick else 500), ('2', 30 if quick else 300)]:
         r = tlc.run('qsim/Sim_Grad.tla', 'qsim/Sim_Grad_%s.cfg' % cfg, simulate=dict(num=num, file=True), depth=9, seed=ctx.seed + 5, workers=8, timeout=3000)
         ctx.add_model('Sim_Grad(QN=%s)' % cfg, r, exhaustive=False)
